@@ -2,13 +2,13 @@ CONSTANTS
   NS = {"c"}
   NK = 2
   BatchSet = "mc"
-  Callers = {1,2}
-  Ops = {"TRead","Restart"}
+  Callers = {1}
+  Ops = {"Translate","RApply","RRecv","RReassign"}
   Depth = 0
-  Recheck = FALSE
-  DropInFlight = TRUE
+  Recheck = TRUE
+  DropInFlight = FALSE
   MaxSeq = 4
-  MaxRestart = 1
+  MaxRestart = 2
   Sample = FALSE
 INIT Init
 NEXT Next
